@@ -143,7 +143,10 @@ def tensors(draw):
     floaty = dt in ("float16", "float32", "float64", "bfloat16", "complex64", "complex128")
     grad = draw(st.booleans()) if floaty else False
     param = draw(st.booleans()) if floaty else False
-    return {"t": "tensor", "dtype": dt, "shape": shape, "seed": draw(st.integers(0, 10**6)), "grad": grad, "param": param}
+    spec = {"t": "tensor", "dtype": dt, "shape": shape, "seed": draw(st.integers(0, 10**6)), "grad": grad, "param": param}
+    if draw(st.integers(0, 2)) == 0:
+        spec["view"] = draw(st.sampled_from(["rows", "index", "transpose"]))  # a view into a larger storage
+    return spec
 
 
 def modules():
@@ -263,7 +266,10 @@ def attr_names():
 def objects(draw, depth, complex_ok=True, min_attrs=0, max_attrs=5, rng_in_containers=True):
     cls = draw(st.sampled_from(["NodeA", "NodeB", "NodeC"]))
     names = draw(st.lists(attr_names(), min_size=min_attrs, max_size=max_attrs, unique=True))
-    return {"t": "obj", "cls": cls, "attrs": [[n, draw(values(depth, complex_ok, True, rng_in_containers))] for n in names]}
+    spec = {"t": "obj", "cls": cls, "attrs": [[n, draw(values(depth, complex_ok, True, rng_in_containers))] for n in names]}
+    if cls in ("NodeA", "NodeB") and draw(st.integers(0, 3)) == 0:
+        spec["mod"] = 2  # same class name, other module
+    return spec
 
 
 # ------------------------------------------------------------------------------------------------
@@ -330,6 +336,20 @@ def _make_tensor(spec):
         t = torch.complex(torch.randn(shape, generator=g, dtype=torch.float64), torch.randn(shape, generator=g, dtype=torch.float64)).to(dt)
     else:
         t = torch.randn(shape, generator=g, dtype=torch.float64).to(dt)
+    view = spec.get("view")
+    if view:
+        # same values, but living inside a larger storage (slice of a bigger tensor / transposed)
+        if view == "transpose" and t.ndim >= 2:
+            t = t.transpose(0, 1).contiguous().transpose(0, 1)
+        elif view == "index" or t.ndim == 0:
+            big = torch.zeros((3,) + tuple(t.shape), dtype=t.dtype)
+            big[1] = t
+            t = big[1]
+        else:
+            big = torch.zeros((t.shape[0] + 3,) + tuple(t.shape[1:]), dtype=t.dtype)
+            big[2 : 2 + t.shape[0]] = t
+            t = big[2 : 2 + t.shape[0]]
+        t = t.detach()
     if spec.get("param"):
         t = torch.nn.Parameter(t, requires_grad=bool(spec.get("grad")))
     elif spec.get("grad"):
@@ -394,9 +414,9 @@ def build(spec):
     if t == "dict":
         return {k: build(s) for k, s in spec["items"]}
     if t == "obj":
-        from vq.models import ser_models
+        from vq.models import ser_models, ser_models2
 
-        o = ser_models.CLASSES[spec["cls"]]()
+        o = (ser_models2 if spec.get("mod") == 2 else ser_models).CLASSES[spec["cls"]]()
         for name, s in spec["attrs"]:
             o.__dict__[name] = build(s)
         return o
@@ -415,6 +435,10 @@ def kinds(spec, ctxname="root", out=None):
         label = "tensor:grad"
     if t in ("list", "tuple") and spec.get("flavour") == "numeric":
         label = t + ":numeric"
+    if t == "obj" and spec.get("mod") == 2:
+        label = "obj:same_name_other_module"
+    if t == "tensor" and spec.get("view"):
+        label = label + ":view"
     out.append("%s@%s" % (label, ctxname))
     if t in ("list", "tuple", "set"):
         for s in spec["items"]:
@@ -479,7 +503,7 @@ def diff(a, b, path="root"):
 
     if isinstance(a, AutoSerialize) and not isinstance(a, torch.nn.Module):
         if type(a) is not type(b):
-            return "%s: class %s -> %s" % (path, type(a).__name__, type(b).__name__)
+            return "%s: class %s.%s -> %s.%s" % (path, type(a).__module__, type(a).__name__, type(b).__module__, type(b).__name__)
         ka, kb = set(vars(a)), set(vars(b))
         if ka != kb:
             return "%s: attribute names differ: missing %s, extra %s" % (path, sorted(ka - kb), sorted(kb - ka))
